@@ -17,6 +17,15 @@ func verifBound(quick, thorough int) int {
 	return quick
 }
 
+// the input being processed, reported if the real code panics on it
+var verifCur []byte
+
+func verifReportPanic(name string) {
+	if r := recover(); r != nil {
+		fmt.Printf("VERIF-BOUNDED-PANIC: %s: panic on input %q: %v\n", name, verifCur, r)
+	}
+}
+
 // enumerate all strings over alphabet up to length n
 func verifEnum(alphabet []byte, n int, f func([]byte)) int {
 	count := 0
@@ -24,6 +33,7 @@ func verifEnum(alphabet []byte, n int, f func([]byte)) int {
 	var rec func(k int)
 	rec = func(k int) {
 		count++
+		verifCur = append([]byte(nil), buf...)
 		f(append([]byte(nil), buf...))
 		if k == n {
 			return
@@ -41,6 +51,7 @@ func verifEnum(alphabet []byte, n int, f func([]byte)) int {
 // Unquote(Quote(d)) == d for every d that Quote accepts; exhaustive over
 // {'>', LF, '-', ' ', 'x'} up to the bound.
 func TestVerifBoundedUnquoteQuote(t *testing.T) {
+	defer verifReportPanic("UnquoteQuote")
 	n := verifBound(7, 9)
 	fails := 0
 	first := ""
@@ -80,6 +91,7 @@ func verifEnumTokens(tokens []string, n int, f func([]byte)) int {
 	var rec func(k int, cur []byte)
 	rec = func(k int, cur []byte) {
 		count++
+		verifCur = append([]byte(nil), cur...)
 		f(append([]byte(nil), cur...))
 		if k == n {
 			return
@@ -97,6 +109,7 @@ func verifEnumTokens(tokens []string, n int, f func([]byte)) int {
 // marker recognition; exhaustive over concatenations of marker-relevant tokens
 // ("-- ", " --", "--", "x", " ", LF, CRLF, CR, "-- x --" + LF, "-- y --") up to the bound.
 func TestVerifBoundedParseRoundTrip(t *testing.T) {
+	defer verifReportPanic("ParseRoundTrip")
 	n := verifBound(5, 6)
 	fails := 0
 	first := ""
